@@ -814,7 +814,21 @@ func TestTwoVerifiers(t *testing.T) {
 			if c.Bool("shareChains") {
 				sharedChains = map[string]certurl.CertChain{}
 				// same signer set for both bundles, so that the shared chains are actually used
-				ws[1].signers = append([]signerSpec(nil), ws[0].signers...)
+				// the first signer (and its CertChain value) is common to both bundles, the later
+				// signers are each bundle's own
+				own := ws[1].signers
+				ws[1].signers = []signerSpec{ws[0].signers[0]}
+				for _, sp := range own {
+					dup := false
+					for _, x := range ws[0].signers {
+						if x.leaf == sp.leaf {
+							dup = true
+						}
+					}
+					if !dup && sp.leaf != ws[0].signers[0].leaf {
+						ws[1].signers = append(ws[1].signers, sp)
+					}
+				}
 				c.Probe("two bundles signed with the same CertChain values")
 			}
 			defer func() { sharedChains = nil }()
@@ -912,8 +926,15 @@ func TestTwoVerifiers(t *testing.T) {
 func signInterleaved(ws []*world) error {
 	bs := []*bundle.Bundle{ws[0].lb.ToRepo(), ws[1].lb.ToRepo()}
 	full := [][]signerSpec{ws[0].signers, ws[1].signers}
-	for i := range full[0] {
+	n := len(full[0])
+	if len(full[1]) > n {
+		n = len(full[1])
+	}
+	for i := 0; i < n; i++ {
 		for wi, w := range ws {
+			if i >= len(full[wi]) {
+				continue
+			}
 			w.signers = full[wi][i : i+1]
 			// sign() starts from w.lb; emulate one step on the evolving bundle instead
 			if err := w.signStep(bs[wi], full[wi][i], i); err != nil {
